@@ -178,38 +178,39 @@ func (w *World) injectWrite() error {
 }
 
 type World struct {
-	injectIn  int  // commit an application transaction at the n-th next log record (0 = disarmed)
-	injecting bool
-	injConn   *sql.DB
-	useInject bool
-	injectVersioned bool
+	injectIn         int // commit an application transaction at the n-th next log record (0 = disarmed)
+	injecting        bool
+	injConn          *sql.DB
+	useInject        bool
+	injectVersioned  bool
 	injectOneFrame   bool
+	lsErrs           int // litestream sync / checkpoint calls that returned an error in this history
 	injectPoint      string
 	atPoint          bool
 	hasOnef          bool
 	pointArmed       bool
-	injectComposite  bool // INJX: after the one-frame commit also end the long reader and run an application PASSIVE checkpoint
+	injectComposite  bool    // INJX: after the one-frame commit also end the long reader and run an application PASSIVE checkpoint
 	wtConn           *sql.DB // connection of the open spilled write transaction (ops WT+ / WT- / WTR)
 	wtx              *sql.Tx
-	scripted         bool // explicit op list: no random injection
-	scriptInject     int // script mode: injection point for the next litestream op (0 = none)
-	concurrentWriter bool // C02 thorough tier: a writer goroutine runs concurrently (schedule-dependent)
-	injRef    []byte // committed image just before the commit injected during the CURRENT operation (nil: none)
-	dir        string
-	dbPath     string
-	replicaDir string
-	cfg        Config
-	app        *sql.DB
-	reader     *sql.Conn // long reader, if any
-	readerTx   *sql.Tx
-	ldb        *litestream.DB
-	rng        *rand.Rand
-	trace      []string // the history, one token per op
-	ntables    int
-	version    int // monotone commit counter (C02 logical oracle)
-	ledger     map[string]int
-	ledgerSeq  []string
-	scenario   string // C04: disturbance label appended to violation signatures
+	scripted         bool   // explicit op list: no random injection
+	scriptInject     int    // script mode: injection point for the next litestream op (0 = none)
+	concurrentWriter bool   // C02 thorough tier: a writer goroutine runs concurrently (schedule-dependent)
+	injRef           []byte // committed image just before the commit injected during the CURRENT operation (nil: none)
+	dir              string
+	dbPath           string
+	replicaDir       string
+	cfg              Config
+	app              *sql.DB
+	reader           *sql.Conn // long reader, if any
+	readerTx         *sql.Tx
+	ldb              *litestream.DB
+	rng              *rand.Rand
+	trace            []string // the history, one token per op
+	ntables          int
+	version          int // monotone commit counter (C02 logical oracle)
+	ledger           map[string]int
+	ledgerSeq        []string
+	scenario         string // C04: disturbance label appended to violation signatures
 }
 
 func newWorld(dir string, cfg Config, rng *rand.Rand) (*World, error) {
@@ -660,7 +661,7 @@ func (w *World) appOp(rc *Recorder, op string) error {
 		return tx.Rollback()
 	case "ACK-PASSIVE", "ACK-FULL", "ACK-RESTART", "ACK-TRUNCATE":
 		var a, b, c int
-		err := w.app.QueryRow("PRAGMA wal_checkpoint(" + strings.TrimPrefix(op, "ACK-") + ")").Scan(&a, &b, &c)
+		err := w.app.QueryRow("PRAGMA wal_checkpoint("+strings.TrimPrefix(op, "ACK-")+")").Scan(&a, &b, &c)
 		if err != nil && strings.Contains(err.Error(), "locked") {
 			return nil
 		}
@@ -791,7 +792,9 @@ func (w *World) lsOp(rc *Recorder, op string) error {
 	defer func() { w.injectIn = 0; w.injRef = nil }()
 	switch op {
 	case "S":
-		_ = w.ldb.Sync(ctx)
+		if err := w.ldb.Sync(ctx); err != nil {
+			w.lsErrs++
+		}
 		return nil
 	case "S1": // one verify+sync round, observed for the model
 		w.observeSync(rc, func() error { _, err := w.ldb.VerifSyncStep(ctx, w.cfg.MaxSyncWALBytes); return err })
@@ -803,7 +806,13 @@ func (w *World) lsOp(rc *Recorder, op string) error {
 		}
 		return nil
 	case "CK-PASSIVE", "CK-FULL", "CK-RESTART", "CK-TRUNCATE":
-		w.observeCheckpoint(rc, strings.TrimPrefix(op, "CK-"), func() error { return w.ldb.Checkpoint(ctx, strings.TrimPrefix(op, "CK-")) })
+		w.observeCheckpoint(rc, strings.TrimPrefix(op, "CK-"), func() error {
+			err := w.ldb.Checkpoint(ctx, strings.TrimPrefix(op, "CK-"))
+			if err != nil {
+				w.lsErrs++ // a checkpoint that fails after its PRAGMA leaves the F9b state behind
+			}
+			return err
+		})
 		return nil
 	case "SW":
 		if err := w.ldb.SyncAndWait(ctx); err == nil {
@@ -1115,6 +1124,13 @@ var ckptWindowScripts = func() (l [][2]string) {
 			l = append(l, [2]string{"ckpt-post-pragma-window:" + mode,
 				fmt.Sprintf("OPEN S W W SW LR+ INJX=%d CK-%s SW", k, mode)})
 		}
+	}
+	// PASSIVE: the barrier transaction holds the write lock from before the sealing copy until after
+	// the PRAGMA, so a commit attempted anywhere in between must fail busy (seed C01: lock insert
+	// moved after the seal copy)
+	for _, k := range []int{5, 6, 7, 8, 9} {
+		l = append(l, [2]string{"passive-barrier-window",
+			fmt.Sprintf("OPEN S W W SW INJ=%d CK-PASSIVE SW W SW", k)})
 	}
 	// the long-running read transaction must survive the end of the call that acquired it (every
 	// litestream op of this harness runs under its own context, cancelled when the op returns): an
